@@ -532,6 +532,46 @@ def run_case(ctx, inp):
             return res
     res.stat("shared_args_passes")
 
+    # ---- the same picture in another brightness unit ------------------------------------------
+    # Multiplying image and raw image by a power of two changes no comparison and no quotient (the
+    # centroid, size and ecc are ratios; mass, signal and raw_mass are linear), and is exact in binary
+    # floating point: every engine must report the same positions / shapes and exactly scaled
+    # brightness columns, however small or large the unit is.
+    kpow = [-50, -40, 30][(N + int(sum(sum(s_) for s_ in starts)) + nd) % 3]
+    fac = 2.0 ** kpow
+    res.stat("unit_scale_2^%d" % kpow)
+    lin = [nd] + ([nd + nsize + 2, nd + nsize + 3] if char else [])
+    for eng in ("python", "numba"):
+        try:
+            r3 = np.asarray(com.refine_com_arr(raw64.astype(np.float64) * fac, img64.astype(np.float64) * fac,
+                                               tuple(radius), coords.copy(), max_iterations=inp["max_iter"],
+                                               engine=eng, shift_thresh=thrf, characterize=char), dtype=float)
+        except Exception as e:
+            pv("engine-raises", "refine_com_arr(engine=%r) raised %s on the image times 2^%d: %s"
+               % (eng, type(e).__name__, kpow, str(e)[:200]), sig=dict(engine=eng))
+            return res
+        ref = np.asarray(com.refine_com_arr(raw64.astype(np.float64), img64.astype(np.float64), tuple(radius),
+                                            coords.copy(), max_iterations=inp["max_iter"], engine=eng,
+                                            shift_thresh=thrf, characterize=char), dtype=float)
+        exp = ref.copy()
+        for c_ in lin:
+            exp[:, c_] = ref[:, c_] * fac
+        live = ~(np.isnan(ref[:, nd]) | (ref[:, nd] == 0))      # rows inside the property's hypothesis
+        if char and nd == 2:
+            # ecc is outside this pass: the code divides by (mass - centre + 1e-6), an ABSOLUTE guard, so
+            # it is not unit-free by design (and the statement does not name it)
+            r3[:, nd + 1 + nsize] = exp[:, nd + 1 + nsize]
+        if r3.shape != exp.shape or not np.array_equal(r3[live], exp[live], equal_nan=True):
+            j = int(np.argmax([not np.array_equal(a_, b_, equal_nan=True) for a_, b_ in zip(r3[live], exp[live])])) \
+                if r3.shape == exp.shape and live.any() else 0
+            pv("brightness-unit-dependent",
+               "refine_com_arr(engine=%r): with image and raw image multiplied by 2^%d the result is not the "
+               "same position / shape with brightness columns scaled by 2^%d" % (eng, kpow, kpow),
+               impl=(r3[live][j].tolist() if r3.shape == exp.shape and live.any() else r3.tolist()[:3]),
+               model=(exp[live][j].tolist() if live.any() else exp.tolist()[:3]), sig=dict(engine=eng))
+            return res
+    res.stat("unit_scale_passes")
+
     moved = False
     sample_rows = []
     for f in range(N):
